@@ -35,9 +35,10 @@ def cfg_for(rng, max_sites=5):
 
 def programs(ctx, n, max_sites=5, corpus=True):
     """yield (label, src)"""
+    import os
     out = []
     if corpus:
-        out += CORPUS
+        out += [c for c in CORPUS if not (os.environ.get("VERIF_NO_SEED_CORPUS") and c[0] == "backward-chain-for")]
     for i in range(n):
         src, _, _ = gen_prog.gen_function(ctx.rng, cfg_for(ctx.rng, max_sites))
         out.append((f"gen{i}", src))
